@@ -51,11 +51,17 @@ pub fn bytes_from(v: &Value) -> Vec<u8> {
 }
 
 pub struct Out {
-    w: std::io::BufWriter<std::io::Stdout>,
+    w: std::io::BufWriter<Box<dyn Write>>,
 }
 impl Out {
+    /// Trace output goes to the file named by VH_OUT (so that anything the code under test
+    /// prints on stdout, e.g. the tokenizer profile, cannot corrupt it), else to stdout.
     pub fn new() -> Out {
-        Out { w: std::io::BufWriter::with_capacity(1 << 20, std::io::stdout()) }
+        let sink: Box<dyn Write> = match std::env::var("VH_OUT") {
+            Ok(p) if !p.is_empty() => Box::new(std::fs::File::create(p).expect("cannot create VH_OUT")),
+            _ => Box::new(std::io::stdout()),
+        };
+        Out { w: std::io::BufWriter::with_capacity(1 << 20, sink) }
     }
     pub fn line(&mut self, v: &Value) {
         serde_json::to_writer(&mut self.w, v).unwrap();
